@@ -1255,7 +1255,7 @@ func genProgram(t *rapid.T, prof *profile, name string) *Program {
 			d.Body = append([]*Stmt{{K: "yield", E: &Expr{K: "var", Name: "a"}}}, d.Body...)
 		}
 		if prof.excl("break-after-yield-in-switch") {
-			if n := dropSwitchBreaks(d.Body, &g.nextEv); n > 0 {
+			if n := dropSwitchBreaks(d.Body, &g.nextEv, prof.noEv); n > 0 {
 				p.tag("excluded:break-in-yielding-switch")
 			}
 		}
@@ -1400,15 +1400,19 @@ func containsAny(s string, subs ...string) bool {
 // dropSwitchBreaks replaces every break that targets a switch containing a yield (anywhere in the
 // switch) by an event statement: the known finding "break in a yielding switch" is triggered by any
 // such break that ends up inside a generated thunk, which depends on the statements around it.
-func dropSwitchBreaks(list []*Stmt, nextEv *int) (removed int) {
+func dropSwitchBreaks(list []*Stmt, nextEv *int, noEv ...bool) (removed int) {
 	var inSwitch func(l []*Stmt) // l belongs to a yielding switch (not inside a nested loop/switch)
 	var walk func(l []*Stmt)
 	inSwitch = func(l []*Stmt) {
 		for i, s := range l {
 			switch s.K {
 			case "break":
-				*nextEv++
-				l[i] = &Stmt{K: "ev", ID: *nextEv}
+				if len(noEv) > 0 && noEv[0] {
+					l[i] = &Stmt{K: "rawsimple", Raw: "_ = 0"} // event-free (goroutine-safe) profile
+				} else {
+					*nextEv++
+					l[i] = &Stmt{K: "ev", ID: *nextEv}
+				}
 				removed++
 			case "if":
 				for cur := s; cur != nil; cur = cur.ElseIf {
